@@ -268,6 +268,15 @@ def sequences(tier, seed):
         for st in SETCC:
             out.append(['fc', '39d8', cst, st, USE[k % len(USE)], '8b07'])
             out.append(['fc', cst, '85d2', st])
+    # concrete operands: every shift / rotate / double shift by cl (an 8-bit count against a 16/32-bit value), by an immediate and by one,
+    # multiplications and divisions, sign extensions -- the machine folds them to constants, the reference computes the same value
+    CL = ['b103', 'b100', 'b11f', 'b120', 'b121']
+    BYCL = ['d3f8', 'd3e8', 'd3e0', 'd3c0', 'd3c8', 'd3d0', 'd3d8', '66d3f8', '66d3e8', '66d3c0', 'd2f8', 'd2e8', 'd2c0', '0fa5d8', '0fadd8', '660fa5d8', 'c1f803', 'c1e81f', 'd1f8', 'd1e8', 'd1d0',
+            'f7e3', 'f7eb', '0fafc3', '98', '6698', '99', '0fbec8', '0fb7c8', 'f7d8', 'f7d0', '0fc8', '0fa3c8', '0fabc8', '0fbcc8', '0fbdc8']
+    for cst in ['b844332211', 'b880000080']:
+        for cl in (CL if tier != 'quick' else ['b103', 'b100', 'b121']):
+            for op in BYCL:
+                out.append(['fc', 'f8', cst, 'bb78563412', cl, op])      # the same population under every seed: known findings are keyed by the last instruction
     return out
 
 # ------------------------------------------------------------------------------------------------ rep
